@@ -268,6 +268,11 @@ def obj_pool(cname, mname, pname, recv):
     pool.append(['bcast'])        # same class, another array shape that broadcasts with the receiver's
     pool.append(['bcast1'])       # same class, shape (1,), fully masked through an ARRAY mask
     pool.append(['lit', None])
+    # entirely masked through the SINGLE value True (shapeless and, if the receiver has axes, shaped):
+    # the representation for which "masked arguments are ignored" paths differ from array masks
+    pool.append(['obj', _scalar_desc((), 'float', 'T')])
+    if shape not in ((), (0,)):
+        pool.append(['obj', _scalar_desc(shape, 'float', 'T')])
     if cname == 'Units':
         return [['units', 'SEC'], ['self'], ['lit', None], ['lit', 2], ['units', 'KM']]
     pool.append(['obj', _scalar_desc((), 'int')])
